@@ -42,6 +42,8 @@ def extra_variants():
     out.append(dict(fw, name="x-fw-routes-only", extra="fw-routes"))
     # generated node sets (office LANs): one edge switch; two edge switches behind a core switch; non-default bandwidths
     out.append(dict(base, name="x-node-sets", extra="node-sets"))
+    # software declared in another order than GEN writes it, every item with options of its own
+    out.append(dict(base, name="x-software-order", extra="software-order"))
     # the top-level ``defaults`` section read by PrimaiteGame.from_config: zero and non-zero values
     out.append(dict(base, name="x-defaults-zero", extra="defaults", defaults_value=0))
     out.append(dict(base, name="x-defaults-four", extra="defaults", defaults_value=4))
@@ -105,6 +107,13 @@ def build_cfg(v):
             {"type": "office-lan", "lan_name": "large", "subnet_base": 32, "pcs_ip_block_start": 20, "num_pcs": 47, "bandwidth": 40},
             {"type": "office-lan", "lan_name": "dflt", "subnet_base": 33, "pcs_ip_block_start": 5, "num_pcs": 24},
         ]
+    if v.get("extra") == "software-order":
+        for n in nodes:
+            for kind in ("services", "applications"):
+                if n.get(kind):
+                    n[kind] = list(reversed(n[kind]))
+                    for k, sw in enumerate(n[kind]):
+                        sw.setdefault("options", {})["fixing_duration"] = 3 + k
     if v.get("extra") == "defaults":
         d = v["defaults_value"]
         cfg["defaults"] = {"node_scan_duration": d, "folder_scan_duration": d, "folder_restore_duration": d,
